@@ -1,5 +1,5 @@
 (* Property C17 — rejected lines and unfragmented sentences leave no trace in the parser. *)
-From Ais Require Import Model.Base Model.Sentence Spec.Grammar Proofs.SentenceLemmas Proofs.Reassembly Proofs.Histories Proofs.Strings.
+From Ais Require Import Model.Base Model.Sentence Spec.Grammar Proofs.SentenceLemmas Proofs.Reassembly Proofs.Histories Proofs.Instances Proofs.Strings.
 From Coq Require Import String.
 Local Open Scope N_scope.
 
@@ -32,9 +32,30 @@ Theorem C17_malformed_no_trace :
 Proof. intros c q st line d H. exact (proj1 (step_not_wellformed c q st line d H)). Qed.
 Print Assumptions C17_malformed_no_trace.
 
-(* Independence of distinct parser instances: the model's [step] is a function of its explicit
-   state argument only (there is no global state to model); for the implementation this is
-   validated by the two-parser interleaving runs of the correspondence, not proved. *)
+(* Distinct parser instances never influence each other.  Two instances are two state values;
+   an interleaved history names, for each call, the instance it is made on ([run2],
+   Proofs/Instances.v).  Each instance ends in the state, and each of its calls gets the result,
+   of the run of its own calls alone: *)
+Theorem C17_instances_independent :
+  forall c q h s0 s1,
+    let '((s0', s1'), os) := run2 c q (s0, s1) h in
+    run c q s0 (calls_on false h) = (s0', results_on false h os) /\
+    run c q s1 (calls_on true h) = (s1', results_on true h os).
+Proof. exact two_parsers_independent. Qed.
+Print Assumptions C17_instances_independent.
+
+(* ... so the results of one instance are the same whatever the other is fed, and whatever state
+   the other is in *)
+Theorem C17_other_instance_is_irrelevant :
+  forall c q h h' s0 s1 s1',
+    calls_on false h = calls_on false h' ->
+    results_on false h (snd (run2 c q (s0, s1) h)) = results_on false h' (snd (run2 c q (s0, s1') h')).
+Proof. exact other_parser_is_irrelevant. Qed.
+Print Assumptions C17_other_instance_is_irrelevant.
+
+(* The model has no global state because the crate has none (no `static`, no `thread_local!`, no
+   interior mutability; `AisParser::parse` takes `&mut self`); that the implementation keeps it
+   that way is what the two-parser interleaving runs of the correspondence check, on every run. *)
 
 Example C17_nonvacuous :
   let st := fst (step Std quirks_asis p_init (bytes "!AIVDM,2,1,1,B,53`soB8000010KSOW<0P4eDp4l6000000000000U0p<24t@P05H3S833CDP00000,0*78") true) in
